@@ -352,7 +352,12 @@ func genC15(t *rapid.T) *CaseC15 {
 				hi = math.Nextafter(lo, math.Inf(-1))
 			}
 			c.F = []F64{F64(hi), F64(lo)} // maxHeight < minHeight
-			c.Z = []int64{rapid.Int64Range(1, 12).Draw(t, "qz"), rapid.Int64Range(0, 12).Draw(t, "vz")}
+			// output zooms next to the ID's own zooms: the library converts the horizontal part before it looks at the heights
+			hb, _ := ref.ParseExt(b.Ext())
+			if c.Fn == "transform.ConvertSpatialIDsToQuadkeysAndVerticalIDs" {
+				hb, _ = ref.ParseSpatial(c.IDs[0])
+			}
+			c.Z = []int64{clamp64(hb.H+rapid.Int64Range(-1, 1).Draw(t, "qz"), 1, 31), clamp64(hb.V+rapid.Int64Range(-1, 1).Draw(t, "vz"), 0, 35)}
 		}
 	}
 	return c
